@@ -3733,7 +3733,7 @@ class Diff(object):
         # Handle old_config
         ######################################################################
         if old_config is None:
-            old_config = []
+            old_config = ""
         elif isinstance(old_config, str) and len(old_config.splitlines()) == 1 and os.path.isfile(old_config):
             # load the old config from a file as a string...
             old_config = open(old_config).read()
@@ -3750,7 +3750,7 @@ class Diff(object):
         # Handle new_config
         ######################################################################
         if new_config is None:
-            new_config = []
+            new_config = ""
         elif isinstance(new_config, str) and len(new_config.splitlines()) == 1 and os.path.isfile(new_config):
             # load the new config from a file as a list...
             new_config = open(new_config).read()
